@@ -1,5 +1,7 @@
 use crate::{
-    operation::{Operation, OperationControl, RepeatOperation, MATCHES_ZLS_ANYWHERE},
+    operation::{
+        Operation, OperationControl, RepeatOperation, RestoreGroupsIterator, MATCHES_ZLS_ANYWHERE,
+    },
     re_flags::ReFlags,
     re_matcher::ReMatcher,
 };
@@ -70,9 +72,12 @@ impl OperationControl for UnambiguousRepeat {
 
     fn matches_iter<'a>(
         &self,
-        matcher: &'a ReMatcher,
+        matcher: &'a ReMatcher<'a>,
         position: usize,
     ) -> Box<dyn Iterator<Item = usize> + 'a> {
+        let saved = self
+            .contains_capturing_expressions()
+            .then(|| matcher.group_state());
         let guard = matcher.search.len();
 
         let mut p = position;
@@ -87,9 +92,12 @@ impl OperationControl for UnambiguousRepeat {
             }
         }
         if matches < self.min {
+            if let Some(saved) = saved {
+                matcher.reset_group_state(saved);
+            }
             Box::new(std::iter::empty())
         } else {
-            Box::new(std::iter::once(p))
+            RestoreGroupsIterator::wrap(matcher, saved, Box::new(std::iter::once(p)))
         }
     }
 
